@@ -557,10 +557,8 @@ def kani_playback_source(prop, ws, crate, harness, timeout=1800):
     cmd = ["cargo", "kani", "--manifest-path", os.path.join(crate, "Cargo.toml")] + KANI_BASE + \
           ["-Z", "concrete-playback", "--concrete-playback=print", "--harness", harness, "--exact", "--output-format=terse"]
     rc, out, to, wall = sh(cmd, cwd=ws, env=kani_env(prop), timeout=timeout)
-    m = re.search(r"Concrete playback unit test for `[^`]*`:\s*```\n(.*?)```", out, re.S)
-    if not m:
-        return None, out
-    return m.group(1), out
+    tests = re.findall(r"Concrete playback unit test for `[^`]*`:\s*```\n(.*?)```", out, re.S)
+    return tests, out
 
 
 def decode_playback(test_src):
@@ -571,21 +569,31 @@ def decode_playback(test_src):
     return vals
 
 
-def native_playback(prop, ws, crate, file, test_src, timeout=900):
-    """Insert the generated test into the cfg(kani) module at the end of `file` and execute it natively
-    with `cargo kani playback`. Returns (reproduced: bool|None, output)."""
+def playback_name(test_src):
+    m = re.search(r"fn (kani_concrete_playback_\w+)\(", test_src)
+    return m.group(1) if m else None
+
+
+def add_playback_tests(ws, file, tests):
+    """Insert generated playback tests into the cfg(kani) module that ends `file`."""
     path = os.path.join(ws, file)
     s = open(path).read()
     i = s.rstrip().rfind("}")
-    m = re.search(r"fn (kani_concrete_playback_\w+)\(", test_src)
-    if not m:
+    add = ""
+    for t in tests:
+        n = playback_name(t)
+        if n and ("fn %s(" % n) not in s and ("fn %s(" % n) not in add:
+            add += "\n" + t + "\n"
+    open(path, "w").write(s[:i] + add + "}\n")
+
+
+def run_playback_test(prop, ws, crate, test_src, timeout=900):
+    """Execute one playback test natively with `cargo kani playback`. Returns (reproduced: bool|None, output)."""
+    tname = playback_name(test_src)
+    if not tname:
         return None, "no playback test name"
-    tname = m.group(1)
-    if tname not in s:
-        s = s[:i] + "\n" + test_src + "\n}\n"
-        open(path, "w").write(s)
     cmd = ["cargo", "kani", "playback", "-Z", "concrete-playback", "--manifest-path", os.path.join(crate, "Cargo.toml"),
-           "--lib", "--", tname, "--exact" if False else "--nocapture"]
+           "--lib", "--", tname, "--nocapture"]
     rc, out, to, wall = sh(cmd, cwd=ws, env=kani_env(prop), timeout=timeout)
     if to:
         return None, out
